@@ -1398,6 +1398,24 @@ pub fn cause(o: &Opts, md: &str, cl: Clause) -> Option<String> {
     }
     for (cf, name) in CFS {
         if fails_with(o, md, &[*cf], cl) == Some(false) {
+            if matches!(cf, Cf::FirstInItem) {
+                // the recorded mechanism needs the bare marker line to follow a non-blank line (it cannot
+                // interrupt a paragraph) or to stand next to another marker; a bare marker line after a blank
+                // line re-parses as the same item on the pinned tree and gets a signature of its own
+                if let Ok(rt) = roundtrip(o, md) {
+                    let mut ctx = bare_marker_context(&rt.cm1);
+                    if ctx == ":after-blank-line" && o.ol_width > 0 {
+                        // `ol_width` pads the marker; on a bare marker line the padding is trailing white
+                        // space, the content column falls back to marker + 1 and the block keeps extra indent
+                        let mut o0 = o.clone();
+                        o0.ol_width = 0;
+                        if fails_with(&o0, md, &[], cl) == Some(false) {
+                            ctx = ":after-blank-line-marker-padded-by-ol-width";
+                        }
+                    }
+                    return Some(format!("{}{}", name, ctx));
+                }
+            }
             return Some(name.to_string());
         }
     }
@@ -1415,6 +1433,66 @@ pub fn cause(o: &Opts, md: &str, cl: Clause) -> Option<String> {
         return Some("several-listed-mechanisms-together".to_string());
     }
     None
+}
+
+/// Strips block-quote markers and indentation, then list markers; returns (number of list markers,
+/// whether anything else is left on the line).
+fn marker_line(line: &[u8]) -> (usize, bool) {
+    let mut i = 0;
+    let mut k = 0;
+    loop {
+        while i < line.len() && (line[i] == b' ' || line[i] == b'>') {
+            i += 1;
+        }
+        if i >= line.len() {
+            return (k, false);
+        }
+        let mut j = i;
+        if matches!(line[j], b'-' | b'+' | b'*') {
+            j += 1;
+        } else {
+            while j < line.len() && line[j].is_ascii_digit() {
+                j += 1;
+            }
+            if j == i || j >= line.len() || !matches!(line[j], b'.' | b')') {
+                return (k, true);
+            }
+            j += 1;
+        }
+        if j < line.len() && line[j] != b' ' {
+            return (k, true);
+        }
+        k += 1;
+        i = j;
+    }
+}
+
+/// Where the bare marker lines of a first-pass output stand: "" when one of them directly follows a
+/// non-blank line, ":several-markers-on-the-line" when one carries two or more markers, and
+/// ":after-blank-line" when every one of them has a single marker and follows a blank line or nothing.
+pub fn bare_marker_context(cm1: &[u8]) -> &'static str {
+    let lines: Vec<&[u8]> = cm1.split(|b| *b == b'\n').collect();
+    let mut several = false;
+    for (n, l) in lines.iter().enumerate() {
+        let (k, rest) = marker_line(l);
+        if k == 0 || rest {
+            continue;
+        }
+        if n > 0 {
+            let (pk, prest) = marker_line(lines[n - 1]);
+            if pk > 0 || prest {
+                return "";
+            }
+        }
+        if k >= 2 {
+            several = true;
+        }
+    }
+    if several {
+        ":several-markers-on-the-line"
+    } else {
+        ":after-blank-line"
+    }
 }
 
 pub fn mechanical(o: &Opts, md: &str, cl: Clause, detail: &str) -> String {
